@@ -14,7 +14,7 @@
 (* OracleHolds) and the scenario is emitted as JSON for replay against the *)
 (* real code.                                                              *)
 (***************************************************************************)
-EXTENDS Wire, Json
+EXTENDS Transcoder, Known, Json
 
 CONSTANTS
     Mode,           \* which dimensions vary: "matrix" "errors" "faults" "reject" "headers"
@@ -119,18 +119,28 @@ ChooseHandler ==
 (***************************************************************************)
 (* Transcoder model (implementation shaped).  Filled in by StreamModel.    *)
 (***************************************************************************)
-Run ==
+\* ServeHTTP for this scenario: the model's predicted boundary observation
+Transcode ==
     /\ ph = "run"
+    /\ m' = Predict(scn)
     /\ ph' = "done"
-    /\ UNCHANGED <<scn, m>>
+    /\ UNCHANGED scn
 
 Done ==
     /\ ph = "done"
     /\ UNCHANGED vars
 
-Next == ChooseCfg \/ ChooseClient \/ ChooseReqFrames \/ ChooseHandler \/ Run \/ Done
+Next == ChooseCfg \/ ChooseClient \/ ChooseReqFrames \/ ChooseHandler \/ Transcode \/ Done
 
 Spec == Init /\ [][Next]_vars
 
 EmitInv == (ph = "done" /\ Emit) => PrintT(ToJson(scn))
+
+(***************************************************************************)
+(* Design check: on every scenario the model's observation satisfies every *)
+(* oracle conjunct of every property of the family, except where an open   *)
+(* known finding is modelled as built.                                     *)
+(***************************************************************************)
+Unexplained == {t \in Judge(scn, m) : KnownFinding(scn, m, t) = ""}
+OracleHolds == ph = "done" => Unexplained = {}
 =============================================================================
